@@ -54,6 +54,7 @@ func main() {
 	prop := flag.String("prop", "all", "property id")
 	tier := flag.String("tier", "quick", "quick|thorough")
 	only := flag.String("only", "", "only units whose name contains this")
+	files := flag.String("files", "", "only units whose function is defined in one of these source files (comma separated, relative to the repository root); lemmas are skipped. Used by the must-fail self-test: a change to a function can only change the obligations of the unit of that function (callers use its contract)")
 	dump := flag.String("dump", "", "dump the SMT script of obligations whose name contains this")
 	verbose := flag.Bool("v", false, "verbose")
 	evidenceOut := flag.String("evidence", "", "evidence file to write")
@@ -104,6 +105,26 @@ func main() {
 		if *only != "" && !strings.Contains(key, *only) {
 			continue
 		}
+		if *files != "" {
+			fn := eng.findFunc(fc)
+			if fn == nil {
+				// the function of this contract does not exist in this tree: keep the unit (it is reported)
+			} else {
+				pos := eng.pos(fn.Pos())
+				if i := strings.LastIndex(pos, ":"); i >= 0 {
+					pos = pos[:i]
+				}
+				sel := false
+				for _, f := range strings.Split(*files, ",") {
+					if strings.TrimSpace(f) == pos {
+						sel = true
+					}
+				}
+				if !sel {
+					continue
+				}
+			}
+		}
 		units = append(units, eng.VerifyFunc(key))
 	}
 	for _, ln := range eng.cs.LemmaOrder {
@@ -112,6 +133,9 @@ func main() {
 			continue
 		}
 		if *only != "" && !strings.Contains("lemma."+ln, *only) {
+			continue
+		}
+		if *files != "" {
 			continue
 		}
 		units = append(units, eng.VerifyLemma(ln))
@@ -168,6 +192,7 @@ func main() {
 	nDis := 0
 	var violations []string
 	var knownMatched []string
+	var knownOther []string
 	var undecided []string
 	var vacuous []string
 	for _, c := range covers {
@@ -183,6 +208,12 @@ func main() {
 		}
 		for _, ub := range u.Unbound {
 			undecided = append(undecided, fmt.Sprintf("%s: clause does not bind (skipped, the other clauses of the unit are decided): %s", u.Unit, ub))
+		}
+	}
+	incompleteUnit := map[string]string{}
+	for _, u := range units {
+		if len(u.Incomplete) > 0 {
+			incompleteUnit[u.Unit] = u.Incomplete[0]
 		}
 	}
 	sort.Slice(obls, func(i, j int) bool { return obls[i].Name < obls[j].Name })
@@ -203,6 +234,7 @@ func main() {
 		for _, k := range known.Findings {
 			if k.Status == "known" && hasProp(o.Props, k.Property) && strings.HasPrefix(o.Name, k.Obligation) {
 				matched = true
+				o.Known = true
 				msg := fmt.Sprintf("KNOWN-FINDING: property=%s %s %s", k.Property, k.Obligation, k.What)
 				dup := false
 				for _, m := range knownMatched {
@@ -210,12 +242,29 @@ func main() {
 						dup = true
 					}
 				}
-				if !dup {
+				if !dup && (*prop == "all" || *prop == k.Property) {
 					knownMatched = append(knownMatched, msg)
+				} else if !dup {
+					// a finding recorded for another property whose obligation lives in the same
+					// package: not a violation here, printed by the check of its own property
+					dupO := false
+					for _, m := range knownOther {
+						if m == msg {
+							dupO = true
+						}
+					}
+					if !dupO {
+						knownOther = append(knownOther, msg)
+					}
 				}
 			}
 		}
 		if matched {
+			continue
+		}
+		if why := incompleteUnit[o.Unit]; why != "" {
+			// the unit met a modelling gap: an obligation that does not discharge there is undecided
+			undecided = append(undecided, fmt.Sprintf("%s: not discharged, and not reported as a violation because %s", o.Name, why))
 			continue
 		}
 		rp := writeReplay(eng, *verif, *prop, o)
@@ -265,8 +314,9 @@ func main() {
 	}
 	wall := time.Since(t0).Seconds()
 	fmt.Printf("govc: property=%s tier=%s units=%d obligations=%d discharged=%d violations=%d known=%d undecided=%d  load=%.1fs gen=%.1fs solve=%.1fs total=%.1fs\n",
-		*prop, *tier, len(units), len(obls), nDis, len(violations), len(knownMatched), len(undecided), tLoad, tGen, tSolve, wall)
+		*prop, *tier, len(units), len(obls), nDis, len(violations), len(knownMatched)+len(knownOther), len(undecided), tLoad, tGen, tSolve, wall)
 	if *evidenceOut != "" {
+		knownOtherEv = knownOther
 		evidenceLevel = *level
 		writeEvidence(*evidenceOut, *prop, *tier, seed, units, obls, covers, solvers, violations, knownMatched, undecided, wall, *extraJSON, eng)
 	}
@@ -319,10 +369,12 @@ func truncate(s string, n int) string {
 }
 
 func writeEvidence(path, prop, tier string, seed int, units []*UnitResult, obls, covers []*Obligation, solvers *Solvers, violations, known, undecided []string, wall float64, extra string, eng *Engine) {
-	nDis := 0
+	nDis, nKnown := 0, 0
 	for _, o := range obls {
 		if o.Status == "discharged" {
 			nDis++
+		} else if o.Known {
+			nKnown++
 		}
 	}
 	trusted := map[string]bool{}
@@ -400,11 +452,13 @@ func writeEvidence(path, prop, tier string, seed int, units []*UnitResult, obls,
 		}
 	}
 	cov := map[string]interface{}{
-		"obligations": len(obls), "discharged": nDis,
+		// the obligations that state a recorded known finding fail by design (KNOWN-FINDING lines);
+		// they are counted apart, so that discharged == obligations says "everything else is proved"
+		"obligations": len(obls) - nKnown, "discharged": nDis, "obligations_generated": len(obls), "obligations_of_known_findings": nKnown,
 		"checker_cmd":  fmt.Sprintf("/verif/bin/govc -repo /repo -verif /verif -prop %s -tier %s (VCs generated from go/ssa of the current tree; each obligation raced on z3 4.8.12 / z3 5.1.0 / cvc5 1.0.3)", prop, tier),
 		"trusted_base": tb, "functions_under_contract": fns, "lemmas": lemmas, "by_backend": solvers.stats, "slowest": slowest, "samples": samples,
 		"vacuity":                map[string]interface{}{"cover_queries": nCover, "reachable_or_unknown": nCoverOK, "unreachable_guards": unreachable},
-		"known_findings_matched": known, "undecided_units": undecided,
+		"known_findings_matched": known, "known_findings_of_other_properties_in_the_same_packages": knownOtherEv, "undecided_units": undecided,
 	}
 	if extra != "" {
 		if b, err := os.ReadFile(extra); err == nil {
@@ -428,6 +482,8 @@ func writeEvidence(path, prop, tier string, seed int, units []*UnitResult, obls,
 }
 
 var evidenceLevel = "proof"
+
+var knownOtherEv []string
 
 func round2(f float64) float64 { return float64(int(f*100+0.5)) / 100 }
 
